@@ -130,13 +130,15 @@ theorem toString_special_values (cfg : NumCfg) :
 /-- **Buffer bound.**  If `⌊|x|⌋ + 2 ≤ 10^k` (the integer part has at most `k` digits even after
 rounding up), every precision is in `[1, P]`, and `sign + k + 1 + P + 1 ≤ sizeof theBuffer`
 (and the integer path's buffer holds 20 characters + NUL), no `sprintf` overruns the buffer and the
-zero-stripping scan stays inside it: the model never reaches `memErr`. -/
+zero-stripping scan stays inside it: the model never reaches `memErr`.  When `formatSmallNumber` is
+compiled in it writes at most 1 + 2 + 323 + 18 characters + NUL, so 345 bytes are enough for it. -/
 theorem toString_no_overflow (cfg : NumCfg) (neg : Bool) (m : Nat) (e : Int) (k P : Nat)
     (hne : cfg.precisions ≠ []) (hP : ∀ p ∈ cfg.precisions, 1 ≤ p ∧ p ≤ P) (hk : 1 ≤ k)
     (hx : truncNat m e + 2 ≤ 10 ^ k)
-    (hB : (if neg then 1 else 0) + k + 1 + P + 1 ≤ cfg.buffer) (hS : 21 ≤ cfg.scalarBuffer) :
+    (hB : (if neg then 1 else 0) + k + 1 + P + 1 ≤ cfg.buffer) (hS : 21 ≤ cfg.scalarBuffer)
+    (hT : cfg.tinyFallback = true → 345 ≤ cfg.buffer) :
     numberToString cfg (.fin neg m e) ≠ .memErr :=
-  numberToString_no_overflow cfg neg m e k P hne hP hk hx hB hS
+  numberToString_no_overflow cfg neg m e k P hne hP hk hx hB hS hT
 
 example : truncNat (2^52) 11 + 2 ≤ 10 ^ 19 ∧ (0 + 19 + 1 + 35 + 1 ≤ 101) := by decide
 
@@ -149,7 +151,8 @@ def IsBinary64 : Dbl → Prop
 347 for the current table): this is the size the proposed repair gives `theBuffer`. -/
 theorem toString_no_overflow_all_doubles (cfg : NumCfg) (P : Nat) (x : Dbl) (hx : IsBinary64 x)
     (hne : cfg.precisions ≠ []) (hP : ∀ p ∈ cfg.precisions, 1 ≤ p ∧ p ≤ P)
-    (hB : 1 + 309 + 1 + P + 1 ≤ cfg.buffer) (hS : 21 ≤ cfg.scalarBuffer) :
+    (hB : 1 + 309 + 1 + P + 1 ≤ cfg.buffer) (hS : 21 ≤ cfg.scalarBuffer)
+    (hT : cfg.tinyFallback = true → 345 ≤ cfg.buffer) :
     numberToString cfg x ≠ .memErr := by
   cases x with
   | nan => simp [numberToString]
@@ -166,7 +169,7 @@ theorem toString_no_overflow_all_doubles (cfg : NumCfg) (P : Nat) (x : Dbl) (hx 
       · have h1 : m / 2 ^ (-e).toNat ≤ m := Nat.div_le_self _ _
         have h3 : (2 : Nat) ^ 53 ≤ 2 ^ 53 * 2 ^ 971 := Nat.le_mul_of_pos_right _ (Nat.pow_pos (by decide))
         omega
-    apply toString_no_overflow cfg neg m e 309 P hne hP (by decide) ht _ hS
+    apply toString_no_overflow cfg neg m e 309 P hne hP (by decide) ht _ hS hT
     cases neg <;> simp <;> omega
 
 /-- if the regenerated buffer sizes pass that test, `NumberToDOMString` cannot overrun for any double -/
@@ -175,7 +178,7 @@ theorem toString_no_overflow_generated (h : generatedBufferCoversAllDoubles = tr
   have hs := generated_constants_sane
   have hb : 1 + 309 + 1 + 35 + 1 ≤ Generated.C18.toStringBuffer := by
     have := of_decide_eq_true h; exact this.1
-  exact toString_no_overflow_all_doubles genCfg 35 x hx hs.1 hs.2.1 hb hs.2.2.1
+  exact toString_no_overflow_all_doubles genCfg 35 x hx hs.1 hs.2.1 hb hs.2.2.1 (fun _ => by show 345 ≤ Generated.C18.toStringBuffer; omega)
 
 /-- **The unchanged code violates the full statement**: with `char theBuffer[101]` (or smaller) and
 `"%.10f"` first in the table, `string(1e90)` needs 91 + 1 + 10 + 1 = 103 bytes: buffer overrun
@@ -189,26 +192,41 @@ theorem toString_overflow_counterexample (cfg : NumCfg) (rest : List Nat) (hB : 
     decide +kernel
   have hl : (printfF 10 false 5505929061914944 248).length = 102 := by decide +kernel
   rw [hx]
-  simp only [numberToString, hm, if_false, hi, hp, printLoop, hl]
+  have hit : intTest cfg false 5505929061914944 248 = false := by rw [intTest_iff]; exact hi
+  simp only [numberToString, hm, if_false, hit, Bool.false_eq_true, finalBuffer, hp, printLoop, hl]
   have : 102 + 1 > cfg.buffer := by omega
   simp [this]
 
-example : (⟨101, 101, [10, 11], [], [], [], []⟩ : NumCfg).buffer ≤ 101 := by decide
+example : ({ buffer := 101, scalarBuffer := 101, precisions := [10, 11], nanS := [], posInfS := [], negInfS := [], zeroS := [] } : NumCfg).buffer ≤ 101 := by decide
 
-/-- **Tiny numbers do not round-trip** (known finding): with the current precision table
+/-- **Tiny numbers do not round-trip without `formatSmallNumber`** (the code before
+proposed/C18-tiny-numbers.diff, `tinyFallback = false`): with the current precision table
 `string(1e-40)` is `"0"`, which reads back as 0. -/
 theorem toString_roundtrip_counterexample_tiny :
-    numberToString { genCfg with buffer := 400 } (Dbl.ofBits 0x37a16c262777579c) = .ok [48] ∧
+    numberToString { genCfg with buffer := 400, tinyFallback := false } (Dbl.ofBits 0x37a16c262777579c) = .ok [48] ∧
     toDoubleSpec [48] ≠ Dbl.ofBits 0x37a16c262777579c := by
   decide +kernel
 
 /-- … and `string(-1e-40)` is `"-0"`; `1.2344908527986638e-21` keeps only 15 significant digits
 (`0.00000000000000000000123449085279866`) -/
 theorem toString_negative_tiny_counterexample :
-    numberToString { genCfg with buffer := 400 } (Dbl.ofBits 0xb7a16c262777579c) = .ok [45, 48] ∧
-    numberToString { genCfg with buffer := 400 } (Dbl.ofBits 0x3b9751a1a7a1b1ee) =
+    numberToString { genCfg with buffer := 400, tinyFallback := false } (Dbl.ofBits 0xb7a16c262777579c) = .ok [45, 48] ∧
+    numberToString { genCfg with buffer := 400, tinyFallback := false } (Dbl.ofBits 0x3b9751a1a7a1b1ee) =
       .ok [48, 46, 48, 48, 48, 48, 48, 48, 48, 48, 48, 48, 48, 48, 48, 48, 48, 48, 48, 48, 48, 48, 49, 50, 51, 52, 52, 57, 48, 56, 53, 50, 55, 57, 56, 54, 54] ∧
     toDoubleSpec [48, 46, 48, 48, 48, 48, 48, 48, 48, 48, 48, 48, 48, 48, 48, 48, 48, 48, 48, 48, 48, 48, 49, 50, 51, 52, 52, 57, 48, 56, 53, 50, 55, 57, 56, 54, 54] ≠ Dbl.ofBits 0x3b9751a1a7a1b1ee := by
+  decide +kernel
+
+/-- with `formatSmallNumber` (`tinyFallback = true`) the same values print 18 significant digits in
+positional form and read back exactly (instances; the general statement is
+`toString_roundtrip_printf_partial` with `readsBack`) -/
+theorem toString_tiny_fixed_examples :
+    ([Dbl.ofBits 0x37a16c262777579c, Dbl.ofBits 0xb7a16c262777579c, Dbl.ofBits 0x3b9751a1a7a1b1ee,
+      Dbl.ofBits 0x0000000000000001, Dbl.ofBits 0x8000000000000001, Dbl.ofBits 0x0010000000000000].all fun x =>
+      match numberToString { genCfg with buffer := 400, tinyFallback := true } x with
+      | .ok s => toDoubleSpec s == x
+      | .memErr => false) = true ∧
+    numberToString { genCfg with buffer := 400, tinyFallback := true } (Dbl.ofBits 0xb7a16c262777579c) =
+      .ok ([45, 48, 46] ++ List.replicate 40 48 ++ [57, 57, 57, 57, 57, 57, 57, 57, 57, 57, 57, 57, 57, 57, 57, 57, 50, 57]) := by
   decide +kernel
 
 /-! ## string → number: value -/
@@ -305,17 +323,62 @@ theorem toString_roundtrip_printf_partial (cfg : NumCfg) (keep : Bool) (threshol
       (toDoubleSpec s).ieeeEq (.fin neg m e) = true ∧
       (((doValidate2 s).2 = true ∨ threshold ≤ s.length) → toDoubleK keep threshold s = toDoubleSpec s) := by
   unfold readsBack at hexit
-  cases hl : printLoop cfg.buffer neg m e cfg.precisions with
+  cases hl : finalBuffer cfg neg m e with
   | none => rw [hl] at hexit; cases hexit
   | some buf =>
     rw [hl] at hexit
     exact roundtrip_printf cfg keep threshold neg m e hm hP hnint buf hl hexit
 
-/-- hypotheses satisfiable: x = 0.1 reads back; x = 1e-40 does not (known finding) -/
+/-- hypotheses satisfiable: x = 0.1 reads back; x = 1e-40 does not without `formatSmallNumber` and does with it,
+as does the smallest subnormal -/
 example : readsBack genCfg false 0x1999999999999a (-56) = true ∧
     (Dbl.ofInt (castInt64 false 0x1999999999999a (-56))).ieeeEq (.fin false 0x1999999999999a (-56)) = false ∧
-    readsBack genCfg false 0x116c262777579c (-185) = false := by
+    readsBack { genCfg with tinyFallback := false } false 0x116c262777579c (-185) = false ∧
+    readsBack { genCfg with tinyFallback := true } false 0x116c262777579c (-185) = true ∧
+    readsBack { genCfg with tinyFallback := true } true 1 (-1074) = true := by
   decide +kernel
+
+/-- **Guarding the int64 cast does not change any result** (proposed/C18-int64-cast-range.diff): wherever
+C++ leaves `static_cast<XMLInt64>(x)` undefined (`castIsUB`: |trunc x| outside [-2^63, 2^63)) the x86
+result never compares equal to `x`, so the integer path is taken for exactly the same values with or
+without the range test — and with it the undefined conversion is never evaluated. -/
+theorem cast_guard_equiv (cfg : NumCfg) (neg : Bool) (m : Nat) (e : Int) :
+    intTest cfg neg m e = (Dbl.ofInt (castInt64 neg m e)).ieeeEq (.fin neg m e) ∧
+    (castIsUB neg m e = true → intTest cfg neg m e = false) := by
+  refine ⟨intTest_iff cfg neg m e, fun h => ?_⟩
+  rw [intTest_iff]; exact castUB_not_eq neg m e h
+
+example : castIsUB false (2 ^ 52) 12 = true ∧ castIsUB true (2 ^ 52) 11 = false := by decide +kernel
+
+/-- `formatSmallNumber` ("%.17e" expanded, proposed/C18-tiny-numbers.diff) always leaves a printf-shaped
+buffer `[-]0.` + zeros + digits of at most 344 characters (345 bytes with the NUL ≤ 347). -/
+theorem formatSmallNumber_fits (neg : Bool) (m : Nat) (e : Int) (b : List Nat) (h : sciExpand neg m e = some b) :
+    PrintfShape (signOf neg) b ∧ b.length ≤ 344 :=
+  sciExpand_shape neg m e b h
+
+example : sciExpand true 1 (-1074) = some ([45, 48, 46] ++ List.replicate 323 48 ++
+    [52, 57, 52, 48, 54, 53, 54, 52, 53, 56, 52, 49, 50, 52, 54, 53, 52, 52]) := by decide +kernel
+
+/-- **Round trip for the `%.Nf` range under the 17-digit lemma.**  `Digits17Suffice` is the precisely stated
+assumption about decimal ↔ binary rounding (17 significant digits identify a double; an explicit
+hypothesis, not an axiom).  Under it, for every canonical non-zero `x` that does not take the int64 path
+and whose last-precision rendering shows at least 17 significant digits (`|x|·10^P ≥ 10^16`:
+`|x| ≳ 1e-19` for P = 35), the printed string is a numeral whose specified value is IEEE-equal to `x`. -/
+theorem toString_roundtrip_digits17 (H : Digits17Suffice) (cfg : NumCfg) (keep : Bool) (threshold : Nat)
+    (neg : Bool) (m : Nat) (e : Int) (hc : Canonical m e) (hm : m ≠ 0) (hP : ∀ p ∈ cfg.precisions, 1 ≤ p)
+    (hnint : (Dbl.ofInt (castInt64 neg m e)).ieeeEq (.fin neg m e) = false)
+    (P : Nat) (hlast : cfg.precisions.getLast? = some P) (h17 : 10 ^ 16 ≤ scaledQ P m e)
+    (buf : List Nat) (hfin : finalBuffer cfg neg m e = some buf) :
+    ∃ s, numberToString cfg (.fin neg m e) = .ok s ∧ matchesNumber s = true ∧
+      (toDoubleSpec s).ieeeEq (.fin neg m e) = true ∧
+      (((doValidate2 s).2 = true ∨ threshold ≤ s.length) → toDoubleK keep threshold s = toDoubleSpec s) :=
+  roundtrip_printf cfg keep threshold neg m e hm hP hnint buf hfin
+    (readsBack_of_digits17 H cfg neg m e hc hm hP P hlast h17 buf hfin)
+
+/-- hypotheses satisfiable: x = 0.1 with the current table (P = 35) -/
+example : Canonical 0x1999999999999a (-56) ∧ Generated.C18.printfPrecisions.getLast? = some 35 ∧
+    10 ^ 16 ≤ scaledQ 35 0x1999999999999a (-56) ∧ (finalBuffer genCfg false 0x1999999999999a (-56)).isSome = true := by
+  refine ⟨Or.inr (by decide), by decide, by decide +kernel, by decide +kernel⟩
 
 /-! ## round / floor / ceiling
 
